@@ -105,7 +105,7 @@ P("C02",
      book("c02_uncrossed_place_limit_m2", "trading & uncrossed pre-state => uncrossed after any placement"),
      book("c02_uncrossed_modify_m2", "trading & uncrossed pre-state => uncrossed after any modification"),
      book("c02_mid_price_m2", "mid_price == bid + (ask-bid)/2 exactly, never panics (uncrossed states)", timeout=600),
-     book("c02_mid_price_crossed", "mid_price on a crossed book (reachable after trading was disabled)", role="C02.mid_price_crossed", expect_fail=True, timeout=600)],
+     book("c02_mid_price_crossed", "mid_price on a crossed book (reachable after trading was disabled)", role="C02.mid_price_crossed", timeout=600, covers=["cover.two_sided_book"])],
   extra_assume=[DISC])
 
 P("C03",
@@ -157,15 +157,15 @@ P("C12",
         tiers=("quick", "thorough") if t in (1, 2, 3, 7, 10) else ("thorough",)) for t in range(1, 11)]
   + [book("c12_grid_place_tick3_off_m2", "placement (any kind) on a tick-3 book keeps every price on the grid; views == recomputation", covers=["cover.placed_while_disabled"]),
      book("c12_grid_modify_ongrid_tick3_m2", "modify to any ON-grid price on a tick-3 book keeps the grid; views == recomputation", covers=["cover.modify_trades", "cover.modify_non_active"]),
-     book("c12_modify_any_price_tick3_m2", "modify_order with ANY new price on a tick-3 book keeps every resting price on the grid", role="C12.modify_offgrid_price", expect_fail=True, covers=["cover.modify_non_active"], timeout=600)],
+     book("c12_modify_any_price_tick3_m2", "modify_order with ANY new price on a tick-3 book keeps every resting price on the grid", role="C12.modify_offgrid_price", covers=["cover.modify_non_active"], timeout=600)],
   bounds="table of 2 arbitrary entries (+1 created), ticks 1..10 enumerated (quick: 1,2,3,7,10), full-width prices incl. 0 and 2^32-1",
   outside="ticks > 10; tables > 2 entries; environment-level creation is decided by C10's submission harnesses (same Ok <=> on-grid / no-trace assertions through Env::place_order)")
 
 P("C05",
   "Placements that tie with a resting order (same side, same price, clock not advanced): afterwards every active order is still queued in its side index under its "
   "own key, the index holds nothing else, and every view equals the recomputation from the order list.",
-  [book("c05_place_bid_limit_tie_m2", "bid limit arriving at the same price and timestamp as a resting bid", role="C05.tied_key_overwrite", expect_fail=True, covers=["cover.two_fills_then_remainder_rests"], covers_unsat_ok=["cover.two_fills_then_remainder_rests"]),
-   book("c05_place_ask_limit_tie_m2", "ask limit arriving at the same price and timestamp as a resting ask", role="C05.tied_key_overwrite", expect_fail=True, covers=["cover.two_fills_then_remainder_rests"], covers_unsat_ok=["cover.two_fills_then_remainder_rests"])],
+  [book("c05_place_bid_limit_tie_m2", "bid limit arriving at the same price and timestamp as a resting bid", role="C05.tied_key_overwrite", covers=["cover.two_fills_then_remainder_rests"], covers_unsat_ok=["cover.two_fills_then_remainder_rests"]),
+   book("c05_place_ask_limit_tie_m2", "ask limit arriving at the same price and timestamp as a resting ask", role="C05.tied_key_overwrite", covers=["cover.two_fills_then_remainder_rests"], covers_unsat_ok=["cover.two_fills_then_remainder_rests"])],
   outside="ties created by re-queuing modifications and over-full environment steps (to be added), tables > 2 entries")
 
 # ----------------------------------------------------------------------------------------------
